@@ -62,9 +62,14 @@ DoCall ==
          mret == IF run.hang THEN [t |-> "hang"] ELSE run.me.ret
          conf == IF modelled THEN mret.t = r.t /\ RetEq(mret, r) /\ run.sh = post
                  ELSE r.t = "ro" /\ sh = post
-         prun == RunCall(shp, c, Fuel)
+         \* the pinned design's QUEUE (tickets) under the observed book: the ticket discipline of the model is
+         \* applied call after call and never re-anchored on the observed tickets (a defect in the code's queue
+         \* handling must not be excused as a stale-ticket finding), while the orders' contents are the observed
+         \* ones (a benign difference in contents must not make every later stale-ticket effect unexplainable)
+         pin  == [ob EXCEPT !.tickets = shp.tickets]
+         prun == RunCall(pin, c, Fuel)
          pret == IF prun.hang THEN [t |-> "hang"] ELSE prun.me.ret
-         v    == CallVerdict(ob, c, r, post, sg, IF modelled THEN [ret |-> pret, sh |-> prun.sh, pre |-> shp] ELSE [ret |-> r, sh |-> shp, pre |-> shp])
+         v    == CallVerdict(ob, c, r, post, sg, IF modelled THEN [ret |-> pret, sh |-> prun.sh, pre |-> pin] ELSE [ret |-> r, sh |-> pin, pre |-> pin])
          lock == fk.on /\ Has(Line, "r2")
          post2 == IF lock THEN ObsOf(Line.st2) ELSE ob2
          run2 == RunCall(ob2, c, Fuel)
@@ -99,11 +104,13 @@ DoEnd == Line.k = "end" /\ UNCHANGED <<sh, ob, sg, ex, sum, ob2, fk, shp>>
    whose aggregate figures lie); C11: the same, kept for lock-step continuation *)
 DoRestore ==
   /\ Line.k \in {"restore", "fork"}
-  /\ LET same == /\ Line.ok
+  /\ LET na   == Has(Line, "na")      \* a forged package could not be built (the checksum recipe is not the pinned one)
+         same == na \/
+                 /\ Line.ok
                  /\ ObsOf(Line.st) = ob                       \* building the copy did not disturb the original (purity)
                  /\ RestoredSame(ob, Line.price2, ObsOf(Line.st2))
                  /\ ApiOk(Line.st2) /\ ListOk(Line.st2)
-         good == same /\ RestoredQueue(ob, ObsOf(Line.st2))    \* ... and queued as the pinned code queues it
+         good == ~na /\ same /\ RestoredQueue(ob, ObsOf(Line.st2))    \* ... and queued as the pinned code queues it
      IN /\ sum' = AddFails([sum EXCEPT !.restores = @ + 1,
                                         !.drifts = IF good \/ ~same \/ Cardinality(@) >= MaxFails THEN @
                                                    ELSE @ \cup {[line |-> l, sc |-> ex.sc, run |-> ex.run]}],
